@@ -125,6 +125,35 @@ func c12Scenarios(tier string) []*Scenario {
 			}
 		}
 	}
+	// the dependent is a daemon (its launcher has exited, it is reported Launched) with a stop command that takes its
+	// time (here: until it is killed after 2 s): it counts as alive until that command has come back
+	for _, beh := range []string{"ok", "hang"} {
+		beh := beh
+		launchedB := func(w *World) bool { return w.lastStat["b"] == "Launched" && w.launches["a#0"] > 0 }
+		sc := &Scenario{
+			ID: "c12-daemon-dependent-stopcmd-" + beh,
+			YAML: projectYAML(nil, PC{Name: "a"}, PC{Name: "b", Deps: map[string]string{"a": cStarted},
+				Lines: []string{"is_daemon: true", "shutdown:", "  command: \"stop-b\"", "  timeout_seconds: 2"}}),
+			Procs: map[string]*ProcScript{"a": {}, "b": {Launches: exits(0)}},
+			Aux:   map[string][]string{"stop-b": {beh}},
+			K:     1, Ordered: true, TickBudget: 3,
+			API: [][]APICall{{{Op: "shutdown", When: launchedB}}},
+		}
+		sc.Check = func(w *World) []Violation {
+			tr := w.pre()
+			sigA := findEvent(tr, 0, func(e Event) bool { return e.Kind == "signal" && e.Proc == "a#0" })
+			ansB := findEvent(tr, 0, func(e Event) bool { return e.Kind == "aux-ans" && e.Proc == "aux:stop-b" })
+			reqB := findEvent(tr, 0, func(e Event) bool { return e.Kind == "aux-req" && e.Proc == "aux:stop-b" })
+			if sigA >= 0 && reqB >= 0 && (ansB < 0 || sigA < ansB) {
+				return []Violation{viol("C12", "stopped-before-dependent:daemon", "a received its stop signal (t=%v) while the stop command of its dependent daemon b was still running", tr[sigA].T)}
+			}
+			if sigA >= 0 && reqB < 0 {
+				return []Violation{viol("C12", "stopped-before-dependent:daemon", "a received its stop signal before its dependent daemon b was asked to stop")}
+			}
+			return nil
+		}
+		scs = append(scs, sc)
+	}
 	// `up a --no-deps --ordered-shutdown`: only a is selected (its own depends_on is cleared); b, which depends on a, is
 	// listed as disabled, keeps its dependency and is started by hand. The order still holds at shutdown.
 	{
